@@ -11,54 +11,96 @@ def sh(cmd, cwd=ROOT, timeout=None):
     p = subprocess.run(cmd, cwd=cwd, stdout=subprocess.PIPE, stderr=subprocess.STDOUT, text=True, timeout=timeout)
     return p.returncode, p.stdout
 
+def run_one(d, a, head, repo, env_extra, mode, out_name='final.json'):
+    sid = os.path.basename(d)
+    meta = json.load(open(os.path.join(d, 'meta.json')))
+    prop = meta.get('property') or sid.split('-')[0]
+    patch = os.path.join(d, 'patch.diff')
+    rc, out = sh(['git', 'apply', '--check', patch], repo)
+    rec = {'id': sid, 'property': prop, 'repo_head': head, 'tier': a.tier, 'mode': mode, 'at': time.strftime('%Y-%m-%dT%H:%M:%SZ', time.gmtime())}
+    if rc != 0:
+        rec.update({'applies': False, 'apply_error': out.strip()[:400]})
+        print(f'{sid}: patch does not apply on {head}', flush=True)
+    else:
+        sh(['git', 'apply', patch], repo)
+        try:
+            t0 = time.time()
+            env = dict(os.environ); env.update(env_extra)
+            p = subprocess.run([os.path.join(ROOT, 'check'), prop, '--tier', a.tier], cwd=ROOT, env=env, stdout=subprocess.PIPE, stderr=subprocess.STDOUT, text=True, timeout=5400)
+            rc, out = p.returncode, p.stdout
+            viol = [l for l in out.splitlines() if l.startswith('VIOLATION')]
+            with_input = [l for l in viol if not l.endswith('no-failing-input-found')]
+            summary = [l for l in out.splitlines() if l.startswith('check ')]
+            rec.update({'applies': True, 'exit': rc, 'violation_lines': len(viol), 'with_failing_input': len(with_input),
+                        'detected': rc == 1 and len(viol) > 0, 'failing_input_found': len(with_input) > 0,
+                        'summary': summary[-1] if summary else '', 'wall_s': round(time.time() - t0, 1), 'sample': viol[:3]})
+            if with_input:
+                m = re.search(r'replay=(\S+)', with_input[0])
+                if m and os.path.exists(os.path.join(ROOT, m.group(1))):
+                    rep = json.load(open(os.path.join(ROOT, m.group(1))))
+                    rec['replay_excerpt'] = {'kind': rep.get('kind'), 'check': rep.get('check'), 'what': str(rep.get('what'))[:300], 'input': json.dumps(rep.get('input'))[:600]}
+            print(f"{sid}: exit={rc} violations={len(viol)} with_input={len(with_input)} {rec['summary']}", flush=True)
+        finally:
+            sh(['git', 'checkout', '--', '.'], repo)
+            sh(['rm', '-rf', os.path.join(ROOT, 'replays', prop)], ROOT)
+    json.dump(rec, open(os.path.join(d, out_name), 'w'), indent=1)
+    return rec
+
+def scratch_mode(a):
+    import threading, queue
+    head = sh(['git', 'rev-parse', '--short', 'HEAD'], '/repo')[1].strip()
+    byprop = {}
+    for d in sorted(glob.glob(os.path.join(ROOT, 'seeded', '*'))):
+        sid = os.path.basename(d)
+        if a.only and sid not in a.only: continue
+        byprop.setdefault(sid.split('-')[0], []).append(d)
+    q = queue.Queue()
+    for p in sorted(byprop): q.put(p)
+    results = []
+    def worker(k):
+        base = f'/tmp/final/w{k}'; repo = base + '/repo'
+        sh(['rm', '-rf', base]); os.makedirs(base)
+        sh(['git', 'worktree', 'prune'], '/repo')
+        rc, out = sh(['git', 'worktree', 'add', '--detach', repo, 'HEAD'], '/repo')
+        if rc != 0: print('worktree failed', out); return
+        while True:
+            try: p = q.get_nowait()
+            except queue.Empty: break
+            for d in byprop[p]:
+                try: results.append(run_one(d, a, head, repo, {'VERIF_REPO': repo}, 'scratch-worktree of /repo HEAD (VERIF_REPO)'))
+                except Exception as e: print('ERROR', d, e, flush=True)
+        sh(['git', 'worktree', 'remove', '--force', repo], '/repo'); sh(['rm', '-rf', base])
+    ts = [threading.Thread(target=worker, args=(k,)) for k in range(a.scratch)]
+    [t.start() for t in ts]; [t.join() for t in ts]
+    sh(['git', 'checkout', '--', 'evidence'], ROOT)
+    det = sum(1 for r in results if r.get('detected')); inp = sum(1 for r in results if r.get('failing_input_found'))
+    print(f'{det}/{len(results)} detected at tier {a.tier} ({inp} with a failing input); not applying: {[r["id"] for r in results if not r.get("applies")]}; missed: {[r["id"] for r in results if r.get("applies") and not r.get("detected")]}; no failing input: {[r["id"] for r in results if r.get("detected") and not r.get("failing_input_found")]}')
+
 def main():
     ap = argparse.ArgumentParser()
     ap.add_argument('--tier', default='quick')
     ap.add_argument('--only', nargs='*')
+    ap.add_argument('--scratch', type=int, default=0, help='N parallel workers, each on its own scratch worktree of /repo HEAD (VERIF_REPO); one property per worker at a time')
+    ap.add_argument('--one-per-property', action='store_true', help='/repo-itself mode: only the last seeded id of each property')
     a = ap.parse_args()
+    if a.scratch:
+        return scratch_mode(a)
     rc, out = sh(['git', 'status', '--porcelain', '--untracked-files=no'], '/repo')
     if out.strip():
         print('/repo is not clean:', out); sys.exit(2)
     head = sh(['git', 'rev-parse', '--short', 'HEAD'], '/repo')[1].strip()
+    dirs = sorted(glob.glob(os.path.join(ROOT, 'seeded', '*')))
+    if a.only:
+        dirs = [d for d in dirs if os.path.basename(d) in a.only]
+    if a.one_per_property:
+        last = {}
+        for d in dirs: last[os.path.basename(d).split('-')[0]] = d
+        dirs = sorted(last.values())
     results = []
-    for d in sorted(glob.glob(os.path.join(ROOT, 'seeded', '*'))):
-        sid = os.path.basename(d)
-        if a.only and sid not in a.only:
-            continue
-        meta = json.load(open(os.path.join(d, 'meta.json')))
-        prop = meta.get('property') or sid.split('-')[0]
-        patch = os.path.join(d, 'patch.diff')
-        rc, out = sh(['git', 'apply', '--check', patch], '/repo')
-        rec = {'id': sid, 'property': prop, 'repo_head': head, 'tier': a.tier, 'at': time.strftime('%Y-%m-%dT%H:%M:%SZ', time.gmtime())}
-        if rc != 0:
-            rec.update({'applies': False, 'apply_error': out.strip()[:400]})
-            print(f'{sid}: patch does not apply on {head}')
-        else:
-            sh(['git', 'apply', patch], '/repo')
-            try:
-                t0 = time.time()
-                rc, out = sh([os.path.join(ROOT, 'check'), prop, '--tier', a.tier], ROOT, timeout=3600)
-                viol = [l for l in out.splitlines() if l.startswith('VIOLATION')]
-                with_input = [l for l in viol if not l.endswith('no-failing-input-found')]
-                summary = [l for l in out.splitlines() if l.startswith('check ')]
-                rec.update({'applies': True, 'exit': rc, 'violation_lines': len(viol), 'with_failing_input': len(with_input),
-                            'detected': rc == 1 and len(viol) > 0, 'failing_input_found': len(with_input) > 0,
-                            'summary': summary[-1] if summary else '', 'wall_s': round(time.time() - t0, 1),
-                            'sample': viol[:3]})
-                # keep one replay as illustration
-                if with_input:
-                    m = re.search(r'replay=(\S+)', with_input[0])
-                    if m and os.path.exists(os.path.join(ROOT, m.group(1))):
-                        rep = json.load(open(os.path.join(ROOT, m.group(1))))
-                        rec['replay_excerpt'] = {'kind': rep.get('kind'), 'check': rep.get('check'), 'what': str(rep.get('what'))[:300],
-                                                 'input': json.dumps(rep.get('input'))[:600]}
-                print(f"{sid}: exit={rc} violations={len(viol)} with_input={len(with_input)} {rec['summary']}")
-            finally:
-                sh(['git', 'checkout', '--', '.'], '/repo')
-                sh(['git', 'checkout', '--', 'evidence/' + prop + '.json'], ROOT)
-                sh(['rm', '-rf', os.path.join(ROOT, 'replays', prop)], ROOT)
-        json.dump(rec, open(os.path.join(d, 'final.json'), 'w'), indent=1)
-        results.append(rec)
+    for d in dirs:
+        prop = os.path.basename(d).split('-')[0]
+        results.append(run_one(d, a, head, '/repo', {}, 'repo-itself (git -C /repo apply / check / checkout)', out_name='final_repo.json'))
+        sh(['git', 'checkout', '--', 'evidence/' + prop + '.json'], ROOT)
     rc, out = sh(['git', 'status', '--porcelain', '--untracked-files=no'], '/repo')
     print('repo clean after run:', not out.strip())
     det = sum(1 for r in results if r.get('detected'))
